@@ -12,7 +12,7 @@ LEAN_MODULES = ["MpirProofs.Props.C01_fftx"]
 THEOREMS = ["Mpir.FftX.fft_radix2_bitrev_dft", "Mpir.FftX.revbin_eq_rev", "Mpir.FftX.ifft_radix2_of_transform", "Mpir.FftX.ifft_fft_radix2",
             "Mpir.FftX.fft_trunc1_prefix", "Mpir.FftX.fft_trunc_prefix", "Mpir.FftX.ifft_trunc1_recovers", "Mpir.FftX.ifft_trunc_recovers",
             "Mpir.FftX.fft_trunc_sqrt2_prefix", "Mpir.FftX.fft_full_sqrt2_bitrev_dft", "Mpir.FftX.ifft_trunc_sqrt2_recovers",
-            "Mpir.FftX.fft_radix2_twiddle_bitrev_dft", "Mpir.FftX.fft_trunc1_twiddle_prefix", "Mpir.FftX.mfa_passes_partial", "Mpir.FftX.fft_mfa_first_half_partial",
+            "Mpir.FftX.fft_radix2_twiddle_bitrev_dft", "Mpir.FftX.fft_trunc1_twiddle_prefix", "Mpir.FftX.mfa_passes_dft", "Mpir.FftX.fft_mfa_trunc_sqrt2_permuted_dft",
             "Mpir.FftX.convolution_chain", "Mpir.FftX.mul_trunc_sqrt2_val", "Mpir.FftX.mul_fft_main_nonmfa_val"]
 PINS = [("fft/fft_radix2.c", "mpir_fft_radix2"), ("fft/ifft_radix2.c", "mpir_ifft_radix2"),
         ("fft/fft_trunc.c", None), ("fft/ifft_trunc.c", None),
@@ -25,11 +25,9 @@ PINS = [("fft/fft_radix2.c", "mpir_fft_radix2"), ("fft/ifft_radix2.c", "mpir_iff
         ("fft/mul_trunc_sqrt2.c", "mpn_mul_trunc_sqrt2")]
 TRUSTED = ["hand-written value-level models of the fft/ transforms in lean/Mpir/Model/FftX.lean (coefficients as integers, every C step a ring "
            "operation modulo 2^(64*limbs)+1; run against the library on every check, whole coefficient array compared on canonical residues)"]
-ASSUMPTIONS = ["MFA: proved are the twiddled column transform (fft_radix2_twiddle_bitrev_dft), its truncated version (fft_trunc1_twiddle_prefix), that column pass + row pass give "
-               "the plain DFT in the permutation (row j, column t) -> frequency j + n2*t (mfa_passes_partial) and, through the strided plumbing of the model, that the FIRST HALF "
-               "matrix of fft_mfa_trunc_sqrt2 holds the values of the plain sqrt2 transform in that permutation (fft_mfa_first_half_partial); the second half matrix (truncated "
-               "columns, relevant rows), the inverse MFA transform and mpn_mul_mfa_trunc_sqrt2 (outer/inner variants, mpn_mulmod_Bexpp1 pointwise) are run only "
-               "(models in Model/FftX.lean for the two transforms; ops fftx_mfa / fftx_imfa, mpn_mul_mfa_trunc_sqrt2)",
+ASSUMPTIONS = ["MFA: the forward transform is proved (fft_mfa_trunc_sqrt2_permuted_dft: both half matrices of the model hold the values of the plain sqrt2 transform in the "
+               "permutation (row j, column t) -> rev(j + n2*t); ingredients fft_radix2_twiddle_bitrev_dft, fft_trunc1_twiddle_prefix, mfa_passes_dft); the inverse MFA transform "
+               "(model + op fftx_imfa), the outer/inner variants and mpn_mul_mfa_trunc_sqrt2 as a whole (mpn_mulmod_Bexpp1 pointwise) are run only",
                "mpir_fft_mulmod_2expp1 / fft_naive_convolution_1 / the negacyclic transforms (the FFT branch of mpn_mulmod_2expp1_basecase, taken for n > FFT_MULMOD_2EXPP1_CUTOFF "
                "limbs) are not modelled: mul_trunc_sqrt2_val is about the model whose pointwise product is the non-FFT basecase branch with mpn_mul_n exact",
                "the transform theorems are about the value-level models; that the limb-level code computes these ring operations is proved per primitive "
